@@ -1,5 +1,6 @@
 import MJ.Proofs.CmpNumFloatEq
 import MJ.Proofs.CmpMap
+import MJ.Proofs.CmpLookup
 import MJ.Proofs.CmpF64Order
 import MJ.Proofs.CollGroup
 import MJ.Proofs.CollRuns
@@ -139,6 +140,25 @@ example :
 theorem map_from_pairs_sorted (ps : List (V × V)) (h : ∀ p ∈ ps, InRange p.1) :
     ∃ qs, mkMap .btree ps = .map qs ∧ (qs.map (·.1)).Pairwise (fun a b => cmpV a b = .lt) :=
   mkMap_btree_sorted ps h
+
+/-! ## dictionary lookup: all entry points agree -/
+
+/-- The string-specialised lookup `get_value_by_str(s)` (behind `m.name`, `Value::get_attr`, context
+    variable resolution and every `attribute=` filter) returns what the general lookup
+    `get_value(&Value::from(s))` (behind `m["name"]`, `Value::get_item`, `"name" in m`) returns — on
+    both sides of the 12-entry fast-path threshold, for `BTreeMap` and `IndexMap`, for every map. -/
+theorem lookup_by_str_eq_lookup (m : Mode) (ps : List (V × V)) (s : List Nat) :
+    getByStr m ps s = getV m ps (.str s) :=
+  getByStr_eq_getV m ps s
+
+/-- … and that lookup finds an entry exactly when some key of the map is `==` the string -/
+theorem lookup_str_iff_some_key_eq (ps : List (V × V)) (s : List Nat) :
+    (getByStr .btree ps s).isSome = true ↔ ∃ p ∈ ps, eqV .btree p.1 (.str s) = true := by
+  rw [lookup_by_str_eq_lookup]; exact getB_str_isSome s ps
+
+/-- in particular a bytes key never answers a string lookup -/
+example : (getByStr .btree [(.bytes [97, 98, 99], .num (.i64 777))] [97, 98, 99]).isSome = false := by decide
+example : (getByStr .btree [(.str [97, 98, 99], .num (.i64 777))] [97, 98, 99]).isSome = true := by decide
 
 /-! ## the collection filters, for every input list and every total preorder `cmp` -/
 
